@@ -1085,6 +1085,14 @@ func psSearchInit(start *ssa.BasicBlock, init map[ssa.Value]bool, cut []Edge, bl
 			if _, isPhi := v.(*ssa.Phi); isPhi {
 				continue // phi outcomes are maintained on the edge into the block (below)
 			}
+			if bo, isB := v.(*ssa.BinOp); isB {
+				// a comparison of one of this block's phis with a constant is maintained on the edge as well
+				px, okx := bo.X.(*ssa.Phi)
+				py, oky := bo.Y.(*ssa.Phi)
+				if (okx && px.Block() == b) || (oky && py.Block() == b) {
+					continue
+				}
+			}
 			if in, ok := v.(ssa.Instruction); ok && in.Block() == b && n.prev != nil {
 				known = copyKnown(known)
 				delete(known, v)
@@ -1644,6 +1652,50 @@ func phiOutcomes(from, to *ssa.BasicBlock, known map[ssa.Value]bool) map[ssa.Val
 			nilable = true
 		}
 		if !isBool && !nilable {
+			// a number or string merged from constants (a status, a mode): the constant that arrives over this edge
+			// decides every comparison of the phi with a constant
+			isNumStr := okb && bt.Info()&(types.IsInteger|types.IsString) != 0
+			if !isNumStr || ph.Referrers() == nil {
+				continue
+			}
+			ix := -1
+			for k, pr := range to.Preds {
+				if pr == from {
+					ix = k
+				}
+			}
+			if ix < 0 {
+				continue
+			}
+			inc, isK := ph.Edges[ix].(*ssa.Const)
+			for _, r := range *ph.Referrers() {
+				bo, isB := r.(*ssa.BinOp)
+				if !isB || (bo.Op != token.EQL && bo.Op != token.NEQ) {
+					continue
+				}
+				var other *ssa.Const
+				if bo.X == ssa.Value(ph) {
+					other, _ = bo.Y.(*ssa.Const)
+				} else if bo.Y == ssa.Value(ph) {
+					other, _ = bo.X.(*ssa.Const)
+				}
+				if other == nil || other.Value == nil {
+					continue
+				}
+				ek, pos := condKey(bo)
+				if !isK || inc.Value == nil {
+					if _, had := known[ek]; had {
+						set(ek, false, true)
+					}
+					continue
+				}
+				eq := constant.Compare(inc.Value, token.EQL, other.Value)
+				truth := eq
+				if bo.Op == token.NEQ {
+					truth = !eq
+				}
+				set(ek, truth == pos, false)
+			}
 			continue
 		}
 		idx := -1
